@@ -65,9 +65,9 @@ func sigOfArity(n int) *sigT {
 type lex struct {
 	s      *scope
 	parent *lex
-	kind   map[string]byte // names probably initialised here, with the probable kind of value
+	kind   map[string]byte  // names probably initialised here, with the probable kind of value
 	sig    map[string]*sigT // for kBlock: what is known about the block (nil = nothing)
-	open   map[string]bool // literals under construction (calling them unguarded recurses forever)
+	open   map[string]bool  // literals under construction (calling them unguarded recurses forever)
 	loop   int
 	inTry  bool
 	self   string // name the scope's literal is being assigned to ("" unknown)
